@@ -46,6 +46,8 @@ def func_stmts(func_node):
     """All statements of a function (not nested defs)."""
     for n in walk_no_nested(func_node):
         if isinstance(n, ast.stmt) and n is not func_node:
+            if isinstance(n, ast.Expr) and isinstance(n.value, ast.Constant):
+                continue  # docstring / bare constant
             yield n
 
 
@@ -269,7 +271,7 @@ def single_assignments(func_node) -> dict:
             for t in assigned_targets(st):
                 if isinstance(t, ast.Name):
                     seen.setdefault(t.id, []).append(None)
-    return {k: v[0] for k, v in seen.items() if len(v) == 1 and v[0] is not None}
+    return {k: v[0] for k, v in seen.items() if v[0] is not None and all(x is not None and norm(x) == norm(v[0]) for x in v)}
 
 
 def expand(func_node, expr, depth=3) -> str:
